@@ -369,6 +369,41 @@ impl Space for MonthDays {
                 out.lockstep("PlainMonthDay::new_with_overflow", &model, &got, |mm, v| (v.iso_month(), v.iso_day(), v.iso_year() as i64) == *mm && v.month_code().as_str() == format!("M{:02}", mm.0), attrs);
             }
         }
+        // the field-record route: the day is regulated against the year the record names (1972 when it names
+        // none), the result always lives in the reference year 1972
+        for (ovn, ov) in [("constrain", ArithmeticOverflow::Constrain), ("reject", ArithmeticOverflow::Reject)] {
+            for ry in [None, Some(1972i32), Some(2021), Some(2020), Some(2023), Some(1900), Some(2000)] {
+                for by_code in [false, true] {
+                    if m == 0 || d == 0 || (by_code && !valid_month) {
+                        continue;
+                    }
+                    let year = ry.unwrap_or(1972) as i64;
+                    let model: Result<(u8, u8, i64), ErrorKind> = match ov {
+                        ArithmeticOverflow::Constrain => {
+                            let mm = m.min(12);
+                            Ok((mm, d.min(days_in_month(year, mm)), 1972))
+                        }
+                        ArithmeticOverflow::Reject => {
+                            if valid_month && d <= days_in_month(year, m) {
+                                Ok((m, d, 1972))
+                            } else {
+                                Err(ErrorKind::Range)
+                            }
+                        }
+                    };
+                    let mut p = temporal_rs::partial::PartialDate::default();
+                    p.year = ry;
+                    p.day = Some(d);
+                    if by_code {
+                        p.month_code = MonthCode::from_str(&format!("M{m:02}")).ok();
+                    } else {
+                        p.month = Some(m);
+                    }
+                    let got = call(|| Calendar::default().month_day_from_partial(&p, ov));
+                    out.lockstep("Calendar::month_day_from_partial", &model, &got, |mm, v| (v.iso_month(), v.iso_day(), v.iso_year() as i64) == *mm, || vec![("month", m.to_string()), ("day", d.to_string()), ("overflow", ovn.to_string()), ("record_year", format!("{ry:?}")), ("month_given_as", if by_code { "monthCode" } else { "month" }.to_string())]);
+                }
+            }
+        }
         // routes for a real month-day: strings and dates must give the canonical value (reference year 1972)
         if valid_month && d >= 1 && d <= dim72 {
             let Oc::Ok(canon) = call(|| PlainMonthDay::new_with_overflow(m, d, Calendar::default(), ArithmeticOverflow::Reject, None)) else { return };
